@@ -261,8 +261,16 @@ func nativeReplay(specPath, tier string, v sx.Violation) (bool, string, error) {
 	}
 	var h *harnessSpec
 	for i := range spec.Harnesses {
-		if spec.Harnesses[i].Name == v.Harness || spec.Harnesses[i].Entry == v.Harness {
+		if spec.Harnesses[i].Name == v.Harness {
 			h = &spec.Harnesses[i]
+		}
+	}
+	if h == nil {
+		for i := range spec.Harnesses {
+			if spec.Harnesses[i].Entry == v.Harness {
+				h = &spec.Harnesses[i]
+				break
+			}
 		}
 	}
 	if h == nil {
